@@ -14,6 +14,7 @@ import LinVerif.Lemmas.C18Config
 import LinVerif.Model.C18State
 import LinVerif.Lemmas.C18State
 import LinVerif.Lemmas.C18Order
+import LinVerif.Lemmas.C18Recreate
 
 namespace LinVerif.Props.C18
 open LinVerif LinVerif.Assign LinVerif.Master LinVerif.Lemmas.C18
@@ -1256,5 +1257,203 @@ example : ∃ (nodes : List Nat) (a : Assignment), nodes.Nodup ∧ 2 ≤ nodes.l
     intro s h1 h2
     have : s = 2 ∨ s = 3 ∨ s = 4 ∨ s = 5 ∨ s = 6 := by omega
     rcases this with rfl | rfl | rfl | rfl | rfl <;> rfl⟩
+
+/-! ## 11. Round 12: what is held for a database is the history of THAT database — drop and re-creation
+under the same name; the helper `ReplicasOnNode` (what `onNodeStartup` revives) follows it -/
+
+/-- in every reachable state the assignment the manager holds for `db`, and whether `db` is known to it,
+are what `db`'s OWN events say (`dbView`: config seen, last payload delivered, not dropped since —
+a drop of an unknown name changes nothing): no node event, no event of another database, and nothing
+an earlier incarnation of the same name left behind takes part -/
+theorem held_assignment_is_database_history (es : List Event) (db : Nat) :
+    Map.lookup (run St.init es).asg db = (dbView db es).held ∧
+    (run St.init es).dbs.contains db = (dbView db es).known := by
+  have h := viewOf_run St.init db es
+  rw [viewOf_init] at h
+  exact ⟨congrArg DbView.held h, congrArg DbView.known h⟩
+
+/-- `ReplicasOnNode(id)` after ANY history lists shard `sid` under `db` iff the payload `db`'s own history
+holds NOW has `id` among the replicas of `sid` — a derived view of the assignments has no memory -/
+theorem replicasOnNode_is_database_history (es : List Event) (hw : ∀ e ∈ es, WellFormed e)
+    (id db sid : Nat) :
+    sid ∈ (Map.lookup (replicasOnNode (run St.init es).asg id) db).getD [] ↔
+      ∃ a rs, (dbView db es).held = some a ∧ (sid, rs) ∈ a ∧ id ∈ rs := by
+  have hinv := inv_reachable es hw
+  rw [replicasOnNode_spec _ id hinv.asg_keys db sid, (held_assignment_is_database_history es db).1]
+
+/-- drop + re-create + restart: after any history `es`, a drop of `db` and a new payload `a` for the same
+name (ANY shard count — also the one the dropped incarnation had — any replica factor, any placement),
+then any events `ns` that do not name `db`'s assignment (node churn, other databases, `db`'s config),
+then a start-up of node `id`:
+(1) `ReplicasOnNode(id)` lists for `db` exactly the shards of `a` that have `id` among their replicas;
+(2) each of them is reported online, led by an alive replica of its replica list in `a`;
+(3) every shard of `db` reported online is a shard of `a` led by an alive node of its replica list in `a`
+    (nothing of the dropped incarnation is revived). -/
+theorem restart_after_recreate (es ns : List Event) (db : Nat) (a : Assignment) (id : Nat)
+    (hw : ∀ e ∈ es, WellFormed e) (hwn : ∀ e ∈ ns, WellFormed e) (ha : (Map.keys a).Nodup)
+    (hns : ∀ e ∈ ns, ¬ NamesAsg db e) :
+    let st := run St.init (es ++ [.dropDb db, .assignChanged db a] ++ ns ++ [.nodeUp id])
+    (∀ sid, sid ∈ (Map.lookup (replicasOnNode st.asg id) db).getD [] ↔ ∃ rs, (sid, rs) ∈ a ∧ id ∈ rs) ∧
+    (∀ sid rs, (sid, rs) ∈ a → id ∈ rs →
+      ∃ ss s, Map.lookup st.shards db = some ss ∧ Map.lookup ss sid = some s ∧ s.state = stOnline ∧
+        ∃ l : Nat, s.leader = (l : Int) ∧ l ∈ st.live ∧ l ∈ rs) ∧
+    (∀ ss sid s, Map.lookup st.shards db = some ss → Map.lookup ss sid = some s → s.state = stOnline →
+      ∃ rs, ∃ l : Nat, (sid, rs) ∈ a ∧ s.leader = (l : Int) ∧ l ∈ st.live ∧ l ∈ rs) := by
+  intro st
+  have hw' : ∀ e ∈ es ++ [Event.dropDb db, Event.assignChanged db a] ++ ns ++ [Event.nodeUp id], WellFormed e := by
+    intro e he
+    simp only [List.mem_append, List.mem_cons, List.not_mem_nil, or_false] at he
+    rcases he with ((h | h | h) | h) | h
+    · exact hw e h
+    · subst h; trivial
+    · subst h; exact ha
+    · exact hwn e h
+    · subst h; trivial
+  have hinv : Inv st := inv_reachable _ hw'
+  -- the payload held for db is `a`
+  have hheld : Map.lookup st.asg db = some a := by
+    rw [(held_assignment_is_database_history _ db).1, dbView_append, dbView_append, dbView_append]
+    show (dbViewStep db (List.foldl (dbViewStep db) _ ns) (.nodeUp id)).held = some a
+    show (List.foldl (dbViewStep db) _ ns).held = some a
+    rw [held_foldl_of_not_names db ns _ hns]
+    exact held_after_drop_create db _ a
+  have hlive : id ∈ st.live := by
+    show id ∈ (run St.init (es ++ [.dropDb db, .assignChanged db a] ++ ns ++ [.nodeUp id])).live
+    rw [run_append]
+    exact (mem_live_step _ (.nodeUp id) id).mpr (Or.inr rfl)
+  refine ⟨?_, ?_, ?_⟩
+  · intro sid
+    rw [replicasOnNode_spec _ id hinv.asg_keys db sid, hheld]
+    constructor
+    · rintro ⟨a', rs, h1, h2, h3⟩; cases h1; exact ⟨rs, h2, h3⟩
+    · rintro ⟨rs, h2, h3⟩; exact ⟨a, rs, rfl, h2, h3⟩
+  · intro sid rs hin hid
+    obtain ⟨ss, hss⟩ := hinv.has_states db a hheld
+    obtain ⟨a', ha', hok⟩ := hinv.db_ok db ss hss
+    rw [hheld] at ha'; cases ha'
+    have hsid := lookup_of_mem a sid rs ha hin
+    obtain ⟨s, hs⟩ := hok.reported sid rs hsid
+    obtain ⟨rs', hrs', hso⟩ := hok.shard_ok sid s hs
+    rw [hsid] at hrs'; cases hrs'
+    have hon : s.state = stOnline := hso.online_iff.mpr ⟨id, hid, hlive⟩
+    obtain ⟨l, k1, k2, k3⟩ := hso.leader_ok hon
+    exact ⟨ss, s, hss, hs, hon, l, k1, k2, k3⟩
+  · intro ss sid s hss hs hon
+    obtain ⟨a', ha', hok⟩ := hinv.db_ok db ss hss
+    rw [hheld] at ha'; cases ha'
+    obtain ⟨rs, hrs, hso⟩ := hok.shard_ok sid s hs
+    obtain ⟨l, k1, k2, k3⟩ := hso.leader_ok hon
+    exact ⟨rs, l, mem_of_lookup a sid rs hrs, k1, k2, k3⟩
+
+/-- drop + re-create, the failure side: after any history, a drop of `db`, a new payload `a` for the same name and
+any events that do not name `db`'s assignment, every shard `LeadersOnNode(id)` lists under `db` — what
+`onNodeFailure` is about to re-elect — is a shard of `a` with `id`, alive so far, among its replicas in `a`;
+and it lists every shard of `db` whose reported leader is `id` -/
+theorem leaders_after_recreate (es ns : List Event) (db : Nat) (a : Assignment) (id : Nat)
+    (hw : ∀ e ∈ es, WellFormed e) (hwn : ∀ e ∈ ns, WellFormed e) (ha : (Map.keys a).Nodup)
+    (hns : ∀ e ∈ ns, ¬ NamesAsg db e) :
+    let st := run St.init (es ++ [.dropDb db, .assignChanged db a] ++ ns)
+    (∀ sid, sid ∈ (Map.lookup (leadersOnNode st.shards id) db).getD [] →
+      ∃ rs, (sid, rs) ∈ a ∧ id ∈ rs ∧ id ∈ st.live) ∧
+    (∀ ss sid s, Map.lookup st.shards db = some ss → Map.lookup ss sid = some s → s.leader = (id : Int) →
+      sid ∈ (Map.lookup (leadersOnNode st.shards id) db).getD []) := by
+  intro st
+  have hw' : ∀ e ∈ es ++ [Event.dropDb db, Event.assignChanged db a] ++ ns, WellFormed e := by
+    intro e he
+    simp only [List.mem_append, List.mem_cons, List.not_mem_nil, or_false] at he
+    rcases he with (h | h | h) | h
+    · exact hw e h
+    · subst h; trivial
+    · subst h; exact ha
+    · exact hwn e h
+  have hinv : Inv st := inv_reachable _ hw'
+  have hheld : Map.lookup st.asg db = some a := by
+    rw [(held_assignment_is_database_history _ db).1]
+    exact dbView_after_recreate db a es ns hns
+  refine ⟨?_, ?_⟩
+  · intro sid hsid
+    obtain ⟨ss, s, hss, hin, hl⟩ := ((leadersOnNode_spec st.shards id hinv.shards_keys db sid).1).mp hsid
+    obtain ⟨a', ha', hok⟩ := hinv.db_ok db ss hss
+    rw [hheld] at ha'; cases ha'
+    have hs := lookup_of_mem ss sid s hok.st_keys hin
+    obtain ⟨rs, hrs, hso⟩ := hok.shard_ok sid s hs
+    by_cases hon : s.state = stOnline
+    · obtain ⟨l, k1, k2, k3⟩ := hso.leader_ok hon
+      have : l = id := by rw [k1] at hl; exact Int.ofNat.inj hl
+      subst this
+      exact ⟨rs, mem_of_lookup a sid rs hrs, k3, k2⟩
+    · have := (hso.offline hon).2
+      rw [this] at hl
+      omega
+  · intro ss sid s hss hs hl
+    exact ((leadersOnNode_spec st.shards id hinv.shards_keys db sid).1).mpr
+      ⟨ss, s, hss, mem_of_lookup ss sid s hs, hl⟩
+
+/-- the repository side of a re-creation: in every reachable world, a drop of `db` followed by a config event
+for the same name (any shard count — also the dropped incarnation's —, any replica factor, any draws, any faults, any
+lag of the node watch) persists, if anything, an assignment in which EVERY shard — not only ids beyond the dropped
+incarnation's — has exactly `rf` distinct nodes registered at that moment: the handler finds nothing of the dropped
+incarnation and takes the create branch -/
+theorem world_recreate_places_every_shard (es : List WEvent) (db : Nat) (numShards rf : Int)
+    (start shift : Nat) (f : Faults) :
+    let w := wrun World.init es
+    let w' := wstep (wstep w (.drop db)) (.cfg db numShards rf start shift f)
+    ∀ a' s rs, Map.lookup w'.store.asgs db = some a' → Map.lookup a' s = some rs →
+      ValidReplicas w.store.reg rf.toNat rs := by
+  intro w w' a' s rs hl hs
+  have hreg : w.store.reg.Nodup := (world_invariant es).1
+  have hnone : Map.lookup (Map.erase w.store.asgs db) db = none := Map.lookup_erase_self _ _
+  exact cfg_new_shards_on_registered { w.store with asgs := Map.erase w.store.asgs db } (step w.st (.dropDb db)).live
+    db numShards rf start shift f hreg
+    (by intro a h; rw [hnone] at h; cases h) a' s rs hl hs
+    (by intro a h; rw [hnone] at h; cases h)
+
+/-- non-vacuity of `world_recreate_places_every_shard`: nodes 1,2,3 register, db 0 is created with 3 shards
+(start 0), node 1 crashes, db 0 is dropped and created again with 3 shards (start 1): shard 0 is on node 3 now -/
+example :
+    let w := wrun World.init [.register 1, .register 2, .register 3, .cfg 0 3 1 0 0 Faults.none, .crash 1]
+    let w' := wstep (wstep w (.drop 0)) (.cfg 0 3 1 1 0 Faults.none)
+    Map.lookup w.store.asgs 0 = some [(0, [1]), (1, [2]), (2, [3])] ∧
+    Map.lookup w'.store.asgs 0 = some [(0, [3]), (1, [2]), (2, [3])] := by
+  decide
+
+/-- no hidden derived state: EVERY field (exported or not) of the manager, of the storage-cluster controller and of
+`models.ShardAssignment` — the model's `St` is `storage.state` (live / asg / shards, see `tie_published_shape` for
+`models.StorageState`'s own fields) plus `databases`; `shardAssignments` is written by the assignment / drop handlers
+and read by nobody; `GetState` hands out the one state object, not a copy or a cached view -/
+theorem tie_no_hidden_state :
+    Generated.C18.stateManagerFields = ["ctx context.Context ", "cancel context.CancelFunc ", "repoFactory statepkg.RepositoryFactory ", "stateMachineFct *StateMachineFactory ", "storage StorageCluster ", "masterRepo statepkg.Repository ", "elector ReplicaLeaderElector ", "databases map[string]*models.Database ", "shardAssignments map[string]*models.ShardAssignment ", "events chan *discovery.Event ", "running *atomic.Bool ", "mutex sync.RWMutex ", "statistics *metrics.StateManagerStatistics ", "shardLeaderStatistics *metrics.ShardLeaderStatistics ", "logger logger.Logger "] ∧
+    Generated.C18.storageClusterFields = ["ctx context.Context ", "repo state.Repository ", "state *models.StorageState ", "logger logger.Logger "] ∧
+    Generated.C18.shardAssignmentFields = ["Shards map[ShardID]*Replica json:\"shards\"", "Name string json:\"name\"", "replicaFactor int "] ∧
+    Generated.C18.storageGetStateShape = ["return c.state"] := by
+  decide
+
+/-- the dispatch of `processEvent` (six event types, one handler each, under the manager's mutex, nothing handled
+once the manager is closed) and the two handlers that never touch the storage state: `onDatabaseCfgChange` (decode,
+then `shardAssignment` — the config handler of §9) and `onDatabaseLimitsChange` (unknown name → ErrDatabaseNotFound,
+otherwise one Put of the limits key): the harness feeds limits events as `noop` ops -/
+theorem tie_event_dispatch :
+    Generated.C18.processEventShape = ["assign eventType = event.Type.String()", "defer ?", "m.mutex.Lock()", "defer mutex.Unlock", "if", "cond !m.running.Load()", "{", "return", "}", "stmt *ast.DeclStmt", "switch event.Type", "{", "case discovery.DatabaseConfigChanged", "assign err = m.onDatabaseCfgChange(event.Key, event.Value)", "case discovery.DatabaseLimitsChanged", "assign err = m.onDatabaseLimitsChange(event.Key, event.Value)", "case discovery.DatabaseConfigDeletion", "assign err = m.onDatabaseCfgDelete(event.Key)", "case discovery.ShardAssignmentChanged", "assign err = m.onShardAssignmentChange(event.Key, event.Value)", "case discovery.NodeStartup", "assign err = m.onStorageNodeStartup(event.Key, event.Value)", "case discovery.NodeFailure", "assign err = m.onStorageNodeFailure(event.Key)", "}", "if", "cond err != nil", "{", "}", "else", "{", "}"] ∧
+    Generated.C18.onDatabaseCfgChangeShape = ["assign cfg = &models.Database{}", "if", "assign err = encoding.JSONUnmarshal(data, &cfg)", "cond err != nil", "{", "return err", "}", "m.shardAssignment(cfg)", "return nil"] ∧
+    Generated.C18.onDatabaseLimitsChangeShape = ["assign name = strings.TrimPrefix(key, constants.GetDatabaseLimitPath(\"\"))", "assign _,ok = m.databases[name]", "if", "cond !ok", "{", "return constants.ErrDatabaseNotFound", "}", "if", "assign err = m.storage.SetDatabaseLimits(name, data)", "cond err != nil", "{", "return err", "}", "return nil"] ∧
+    Generated.C18.setDatabaseLimitsShape = ["if", "assign err = c.repo.Put(c.ctx, constants.GetDatabaseLimitPath(database), limits)", "cond err != nil", "{", "return err", "}", "return nil"] := by
+  decide
+
+/-- non-vacuity of `restart_after_recreate` and discrimination: database 0 is created on nodes 1,2 (shard 0 on
+node 1, shard 1 on node 2), node 1 restarts, the database is dropped and created again with the SAME shard
+count but the other placement, node 1 fails and restarts: the model revives shard 1 (node 1's shard NOW);
+`ReplicasOnNode` answered through an index built from the first incarnation and kept because the shard count
+is unchanged (`indexedView`) names shard 0 instead -/
+example :
+    let a1 : Assignment := [(0, [1]), (1, [2])]
+    let a2 : Assignment := [(0, [2]), (1, [1])]
+    let es : List Event := [.nodeUp 1, .nodeUp 2, .dbCfg 0, .assignChanged 0 a1, .nodeDown 1, .nodeUp 1]
+    let st := run St.init (es ++ [.dropDb 0, .assignChanged 0 a2] ++ [.dbCfg 0, .nodeDown 1] ++ [.nodeUp 1])
+    (dbView 0 es).held = some a1 ∧ st.asg = [(0, a2)] ∧
+    replicasOnNode st.asg 1 = [(0, [1])] ∧
+    replicasOnNode (indexedView [(0, a1)] st.asg) 1 = [(0, [0])] ∧
+    st.shards = [(0, [(0, { state := stOnline, leader := 2, replicas := [2] }),
+                      (1, { state := stOnline, leader := 1, replicas := [1] })])] := by
+  decide
 
 end LinVerif.Props.C18
